@@ -319,8 +319,26 @@ def interpreted_rows(prog: Program, rows):
         if not same_id and len(kinds) < 2:
             continue
         results = []
-        for order in ('forward', 'reversed'):
-            seq = kinds if order == 'forward' else kinds[::-1]
+        orders = ['forward', 'reversed']
+        if nc > 1 or nd > 1:
+            orders.append('interleaved')       # equal message types not adjacent: create, other, create, delete, other, delete ...
+        for order in orders:
+            if order == 'interleaved':
+                pools = [['create'] * nc, ['delete'] * nd, ['sub'] * nsub]
+                rr = []
+                while any(pools):
+                    for pl in pools:
+                        if pl:
+                            rr.append(pl.pop())
+                seq = []
+                for k in rr:                   # round-robin over the types, an unrelated message between two equal neighbours
+                    if seq and seq[-1] == k:
+                        seq.append('other')
+                    seq.append(k)
+                if 'other' not in seq:
+                    seq.insert(0, 'other')
+            else:
+                seq = kinds if order == 'forward' else kinds[::-1]
             eng = ValidateFlow(prog, True)
             eng.entry = f'MosCollection({row}, {order})'
             st = base_state(eng)
@@ -384,7 +402,7 @@ def accept_table(res: CheckResult, prog: Program):
     rows = [r for r in rows if not (r[0] and (r[2] or r[3] or r[5] or not r[1]))]
     try:
         interp = interpreted_rows(prog, rows)
-        res.extra['accept_table_method'] = 'abstract interpretation of MosCollection.__init__/_validate on exact representative reader lists (two orders per row)'
+        res.extra['accept_table_method'] = 'abstract interpretation of MosCollection.__init__/_validate on exact representative reader lists (two orders per row, a third with equal types apart when a type repeats)'
     except AnalysisError as e:
         interp = None
         res.extra['accept_table_method'] = f'pattern evaluator over the statements of _validate (interpretation not possible: {e})'
